@@ -333,6 +333,7 @@ def run_check(pid, tier, seconds=None, runs=None, workers=None, verif_seed=None)
     def absorb(job, case, out):
         i, kind, payload, _ = job
         agg['evaluations'] += 1
+        bump(agg.setdefault('by_origin', {}), 'corpus' if kind.startswith('corpus') else kind)
         agg['steps'] += out.get('steps', 0)
         agg['wall_cases'] += out.get('wall', 0.0)
         agg['digests'].add(out['digest'])
@@ -393,6 +394,7 @@ def run_check(pid, tier, seconds=None, runs=None, workers=None, verif_seed=None)
             n += 1
 
     jobit = jobs()
+    seed_deadline = [None]
     ex = _make_pool(pid, workers)
     pending = {}
     exhausted = False
@@ -404,10 +406,15 @@ def run_check(pid, tier, seconds=None, runs=None, workers=None, verif_seed=None)
                 except StopIteration:
                     exhausted = True
                     break
-                # corpus and sweep cases always run; seeded cases stop at the deadline
-                if job[1] == 'seed' and time.time() > deadline:
-                    exhausted = True
-                    break
+                # corpus and sweep cases always run; seeded cases stop at the deadline -- which is never earlier than
+                # 40% of the budget after the first seeded case is reached, so that a slow machine (or a long sweep)
+                # cannot silently reduce the seeded part to nothing
+                if job[1] == 'seed':
+                    if seed_deadline[0] is None:
+                        seed_deadline[0] = max(deadline, time.time() + 0.4 * (deadline - t_start))
+                    if time.time() > seed_deadline[0]:
+                        exhausted = True
+                        break
                 pending[ex.submit(_wrun, job)] = job
             if not pending:
                 break
@@ -501,6 +508,7 @@ def run_check(pid, tier, seconds=None, runs=None, workers=None, verif_seed=None)
         'level': getattr(prop, 'LEVEL', 'exploration'),
         'coverage': {
             'evaluations': agg['evaluations'],
+            'evaluations_by_origin': agg.get('by_origin', {}),
             'distinct_nontrivial': len(agg['nontrivial']),
             'rule': getattr(prop, 'RULE', ''),
             'samples': agg['samples'] or [{'note': 'no clean sample recorded'}],
@@ -536,8 +544,9 @@ def run_check(pid, tier, seconds=None, runs=None, workers=None, verif_seed=None)
     for sig, path, nshr in reported:
         print('violation %s (minimised in %d steps)' % (sig, nshr))
         print('VIOLATION property=%s replay=%s' % (pid, path))
-    print('evaluations=%d distinct_nontrivial=%d digests=%d steps=%d wall=%.1fs harness_errors=%d' % (
-        agg['evaluations'], len(agg['nontrivial']), len(agg['digests']), agg['steps'], wall, len(agg['harness'])))
+    print('evaluations=%d (%s) distinct_nontrivial=%d digests=%d steps=%d wall=%.1fs harness_errors=%d' % (
+        agg['evaluations'], ' '.join('%s=%d' % kv for kv in sorted(agg.get('by_origin', {}).items())),
+        len(agg['nontrivial']), len(agg['digests']), agg['steps'], wall, len(agg['harness'])))
     if reported:
         return EXIT_VIOLATION
     if agg['harness']:
